@@ -1799,6 +1799,8 @@ def match_expr(expr, pattern, tks, result=None):
     elif expr.is_compose():
         if not pattern.is_compose():
             return False
+        if len(expr.args) != len(pattern.args):
+            return False
         for sub_expr, sub_pattern in zip(expr.args, pattern.args):
             if  match_expr(sub_expr, sub_pattern, tks, result) is False:
                 return False
